@@ -105,3 +105,58 @@ _CASES = {}
 
 def _case_of(se):
     return _CASES.get(id(se), {"kind": "late-use"})
+
+
+# ---------------------------------------------------------------------------------------------------------------------
+# scans that directly follow each other
+# ---------------------------------------------------------------------------------------------------------------------
+
+
+def burst_scans(requests, owner, mapping, acc, case, keep=True):
+    """A process that scans several trees (or one tree under several options) directly one after the other - session
+    fixtures being set up, a watch mode - before it looks at any result.  The library is called back to back with nothing
+    of the monitor in between (the wrapper would allocate thousands of objects between two scans and thereby hide state
+    that the library keys by object address); with keep=False every second result is dropped before the next call.  Only
+    afterwards is each kept result judged by R-SCAN against the tree, which is still on disk.
+    requests: [(args, kwargs, sub_case)] -> list of judged ScanEvent (None for dropped / unjudged ones)."""
+    import inspect
+
+    import pytestarch.pytestarch as entry
+
+    from . import monitors_more as mm
+
+    wrapped = entry.get_evaluable_architecture
+    orig = getattr(wrapped, "_pta_orig", wrapped)
+    sig = inspect.signature(orig)
+    results = []
+    if keep:
+        results = [orig(*a, **k) for a, k, _c in requests]
+    else:
+        for i, (a, k, _c) in enumerate(requests):
+            r = orig(*a, **k)
+            results.append(r if i % 2 else None)
+            del r
+    out = []
+    for (a, k, sub), ev in zip(requests, results):
+        if ev is None:
+            out.append(None)
+            continue
+        ba = sig.bind(*a, **k)
+        ba.apply_defaults()
+        na = mm._normalise_scan_args(ba)
+        se = mm.ScanEvent(na, "ok", evaluable=ev, deferred=True)
+        c = dict(case, **(sub or {}))
+        try:
+            se.model = mm.rscan.model(os.path.abspath(os.path.normpath(str(na["root_path"]))), os.path.abspath(os.path.normpath(str(na["module_path"]))), na["_globs"], na["_regexes"])
+        except Exception as e:  # noqa: BLE001
+            HUB.acc.count("scan_model_errors")
+            HUB.acc.hist("scan_model_error", f"{type(e).__name__}: {e}"[:200])
+            out.append(None)
+            continue
+        if judge_deferred_scan(se, owner, c):
+            attribute_scan_findings(se, mapping, c)
+            acc.count("scans_judged_after_a_burst_of_back_to_back_scans")
+            out.append(se)
+        else:
+            out.append(None)
+    return out
